@@ -148,7 +148,7 @@ class Checker:
                     j = zk[2]
                     rows.append((j, stamp))
                     out['nobl'] += 1
-                    if self.prop != 'C10':
+                    if h.kind == 'feedback':
                         # feedback filter: the row carries the sample's own time
                         m = h.mts[name][j]
                         if stamp is not m and (not isinstance(stamp, T) or ex.feasible(stamp.v != m.v)):
